@@ -113,6 +113,59 @@ fn operand(r: &mut Rng, w: u32) -> B {
     v.trunc(w)
 }
 
+/// LIMB-PATTERN family: every 64-bit limb from the carry/borrow-relevant set (or random).
+const LIMBS: &[u64] = &[0, 1, 2, (1 << 63) - 1, 1 << 63, (1 << 63) + 1, u64::MAX - 1, u64::MAX];
+fn limb(r: &mut Rng) -> u64 { if r.chance(1, 9) { r.next() } else { *r.pick(LIMBS) } }
+
+/// A pair of `w`-bit operands (w = 128 or 256) built limb by limb so that, in every limb position
+/// independently, the per-limb sum / difference / product lands in one of the classes
+/// {far from the boundary, exactly MAX (a carry/borrow coming in tips it over), exactly 2^64, beyond}.
+/// All combinations over the limb positions occur: carry in low only, high only, both, and the carry
+/// chain (low carry makes a high sum of MAX overflow).
+fn limb_pair(r: &mut Rng, w: u32, op: &str) -> (B, B) {
+    let n = (w / 64) as usize;
+    let mut a = [0u64; 4];
+    let mut b = [0u64; 4];
+    for i in (4 - n)..4 {
+        let x = limb(r);
+        let y = match op {
+            "sub" | "wsub" | "cmp" => match r.below(7) {
+                0 => x,                      // equal limbs: the borrow decision moves to the next limb
+                1 => x.wrapping_add(1),      // borrow by one (or wrap to 0 when x = MAX)
+                2 => x.wrapping_sub(1),
+                3 => 0,
+                4 => u64::MAX,
+                _ => limb(r),
+            },
+            "mul" | "wmul" | "div" | "mod" => match r.below(6) {
+                0 => 0,
+                1 => 1,
+                2 => if x == 0 { u64::MAX } else { u64::MAX / x },          // product just below 2^64
+                3 => if x == 0 { 1 } else { (u64::MAX / x).wrapping_add(1) }, // product just above
+                _ => limb(r),
+            },
+            _ => match r.below(7) {
+                0 => 0,
+                1 => u64::MAX - x,                   // sum = MAX: overflows only with a carry in
+                2 => (u64::MAX - x).wrapping_add(1), // sum = 2^64 exactly
+                3 => (u64::MAX - x).wrapping_add(2),
+                4 => u64::MAX,
+                _ => limb(r),
+            },
+        };
+        a[i] = x;
+        b[i] = y;
+    }
+    // multiplication / division: mostly keep one operand short so that not everything overflows
+    if matches!(op, "mul" | "wmul" | "div" | "mod") && r.chance(2, 3) {
+        let keep = 1 + r.below(n as u64 - 1) as usize; // limbs kept (from the low end)
+        let which = r.chance(1, 2);
+        for i in (4 - n)..(4 - keep) { if which { a[i] = 0 } else { b[i] = 0 } }
+        if r.chance(1, 2) { for i in (4 - n)..(4 - n + keep.min(n - 1)) { if which { b[i] = 0 } else { a[i] = 0 } } }
+    }
+    if r.chance(1, 2) { (B(a), B(b)) } else { (B(b), B(a)) }
+}
+
 #[derive(Clone, Debug)]
 struct NumCase { op: String, ty: String, mode: u32, a: B, b: B }
 
@@ -124,15 +177,20 @@ fn gen_num(r: &mut Rng) -> NumCase {
     let mut ops: Vec<&str> = vec!["add", "sub", "mul", "div", "mod", "pow", "pow", "sqrt", "sqrt", "log", "log", "log2"];
     if ty != "u128" { ops.extend(["wadd", "wsub", "wmul"]); }
     // (`u8::try_from(U128)` &c. do not resolve in this compiler version, so `TryFrom<U128>` is not driven)
-    if ty == "u128" { ops.extend(["lsh", "rsh", "cmp", "add", "sub", "mul", "div", "div"]); }
+    if ty == "u128" { ops.extend(["lsh", "rsh", "cmp", "add", "add", "add", "sub", "sub", "sub", "mul", "mul", "mul", "div", "div"]); }
     if ty == "u64" { ops.extend(["oadd", "omul", "try8", "try16", "try32", "tas8", "tas16", "tas32"]); }
-    if ty == "u256" { ops.extend(["try8", "try16", "try32", "try64"]); }
+    if ty == "u256" { ops.extend(["try8", "try16", "try32", "try64", "add", "sub", "mul"]); }
     if ty == "u32" { ops.extend(["try8", "try16", "tas8", "tas16"]); }
     if ty == "u16" { ops.extend(["try8", "tas8"]); }
     let op = *r.pick(&ops);
     let mode = if r.chance(3, 4) { 0 } else { r.below(4) as u32 };
     let mut a = operand(r, w);
     let mut b = operand(r, w);
+    // ~40% of the wide binary-operation budget goes to the limb-pattern family
+    let wide_binary = (ty == "u128" || ty == "u256")
+        && matches!(op, "add" | "sub" | "mul" | "div" | "mod" | "wadd" | "wsub" | "wmul" | "cmp");
+    let limb_family = wide_binary && r.chance(2, 5);
+    if limb_family { let (x, y) = limb_pair(r, w, op); a = x; b = y; }
     match op {
         "pow" => {
             // base biased small, exponent near the overflow edge
@@ -168,6 +226,7 @@ fn gen_num(r: &mut Rng) -> NumCase {
             }
         }
         "lsh" | "rsh" => { b = match r.below(6) { 0 => B::from_u64(0), 1 => B::from_u64(63 + r.below(3)), 2 => B::from_u64(127 + r.below(3)), 3 => operand(r, 64), _ => B::from_u64(r.below(130)) }; }
+        _ if limb_family => {}
         "div" | "mod" => { if r.chance(1, 8) { b = B::from_u64(0); } else if r.chance(1, 4) { b = B::from_u64(1 + r.below(10)); } }
         "sub" => { if r.chance(1, 3) { if r.chance(1, 2) { b = a } else { b = a.add(B::from_u64(1)).trunc(w) } } }
         "add" => { if r.chance(1, 3) { let max = B([u64::MAX; 4]).trunc(w); b = max.sub(a).add(B::from_u64(r.below(3))).sub(B::from_u64(1)).trunc(w); } }
